@@ -895,7 +895,7 @@ func main() {
 			os.Exit(2)
 		}
 		out.Line("ecfg own=1,2")
-		nh := vh.EnvInt("VERIF_EQUIV_HISTORIES", map[bool]int{false: 80, true: 1200}[thorough])
+		nh := vh.EnvInt("VERIF_EQUIV_HISTORIES", map[bool]int{false: 80, true: 800}[thorough])
 		for i := 1; i <= nh; i++ {
 			runNodeHistory(e, i, 25+e.rng.Intn(50))
 			out.Flush()
